@@ -533,6 +533,24 @@ CLAIMED["C17"] = (
     CLAIMED["C17"][1], CLAIMED["C17"][2], CLAIMED["C17"][3],
 )
 
+_upd(
+    "C02",
+    CLAIMED["C02"][0]
+    + " TEMPLATE TABLE: every message every check can build is regenerated from the check's source by a path-sensitive symbolic "
+    "evaluation (378 messages, 714 back-quoted fragments; stringify-holes vs raw holes; each fragment parsed by CPython with names in the "
+    "holes) and pinned per check: a check that gains a message, a stringify(x) that becomes str(x), an operand that moves next to "
+    ".attr/not, or a fragment that stops parsing breaks gen_classified / gen_agrees_committed / closed_new_covered (decide +kernel over "
+    "the regenerated table through structural twins of the printer, proved equal for every tree). replacement_parses: ANY expression, "
+    "assignment, for-head or in-tail fragment of the table parses as its form over the operands when each hole's text derives at its "
+    "position's level; replacement_parses_refurb instantiates it with refurb's printer under the guard; replacement_other_tree / "
+    "replacement_unparsable show unconditionally that the guard cannot be dropped (`a + b.copy()`, `qq or ww := b` — the formal face of "
+    "the recorded lost-parentheses finding). Every real message of the run must instantiate an extracted template of its check.",
+    "Trusted additionally: the extractor's symbolic evaluation (tied by the real run: ~1.9k distinct messages over 267 of 378 templates in the "
+    "quick tier; the templates never exercised are listed in the evidence) and CPython as parser of fragments; target-shapedness of "
+    "for/assignment holes is a hypothesis; messages that match two equally specific templates are counted, not attributed.",
+    CLAIMED["C02"][2] + "; ast symbolic extraction of message templates + kernel decide over the regenerated table",
+)
+
 def main() -> int:
     m = build()
     (VERIF / "MANIFEST.json").write_text(json.dumps(m, indent=1, ensure_ascii=False) + "\n")
